@@ -33,9 +33,31 @@ def size_of(space):
     return int(np.prod(space.shape))
 
 
+PERTURB = [0.0]
+
+
+class perturbation(object):
+    """Within this context every element built by `unflat` is perturbed by a relative / absolute
+    `eps` (alternating signs).  Re-running a case under +eps and -eps measures how strongly its
+    iterates react to rounding-sized input differences (amplification of the iteration, flips of
+    thresholds / projections): the SENSITIVITY ENVELOPE used by the non-exact comparison."""
+
+    def __init__(self, eps):
+        self.eps = eps
+
+    def __enter__(self):
+        PERTURB[0] = self.eps
+
+    def __exit__(self, *a):
+        PERTURB[0] = 0.0
+
+
 def unflat(space, arr):
     import odl
     arr = np.array(arr, dtype=float)  # always a fresh copy: elements wrap their input
+    if PERTURB[0] and arr.size:
+        sg = np.where(np.arange(arr.size) % 2 == 0, 1.0, -1.0).reshape(arr.shape)
+        arr = arr * (1.0 + PERTURB[0] * sg) + PERTURB[0] * sg * 0.5
     if isinstance(space, odl.ProductSpace):
         parts, k = [], 0
         for s in space:
@@ -348,7 +370,31 @@ def pfrac(t):
     return Fraction(int(t))
 
 
-def seq_mismatch(impl_seq, model_seq, rtol=1e-9, exact_bits=44, exact=True):
+def envelope(base_seq, pert_seqs):
+    """running maximum over the iterates of max |perturbed - base| (all perturbed runs); None when
+    a perturbed run has a different number / shape of iterates (then no reliable envelope exists)"""
+    if base_seq is None:
+        return []
+    out, cur = [], 0.0
+    for ps in pert_seqs:
+        if ps is None or len(ps) != len(base_seq):
+            return None
+    for k, b in enumerate(base_seq):
+        b = np.asarray(b, dtype=float).ravel()
+        for ps in pert_seqs:
+            q = np.asarray(ps[k], dtype=float).ravel()
+            if q.shape != b.shape or not finite(q):
+                return None
+            if b.size:
+                cur = max(cur, float(np.max(np.abs(q - b))))
+        out.append(cur)
+    return out
+
+
+ENV_FACTOR = 1e-2   # a +-1e-9 input perturbation reacts ~1e7 times stronger than double rounding
+
+
+def seq_mismatch(impl_seq, model_seq, rtol=1e-9, exact_bits=44, exact=True, env=None):
     """Compare two sequences of vectors (impl: numpy arrays, model: lists of Fractions).
     Exact when the inputs allow it (`exact`, see `line_exact`) and every model value is a
     dyadic rational of at most `exact_bits` significant bits (then no float operation on
@@ -372,6 +418,10 @@ def seq_mismatch(impl_seq, model_seq, rtol=1e-9, exact_bits=44, exact=True):
         # loosen the comparison of its early iterates)
         here = max([Fraction(1)] + [abs(v) for v in mv])
         tol = Fraction(0) if is_exact else Fraction(rtol) * max(here, prev)
+        if not is_exact and env is not None and k < len(env):
+            # grows with the measured amplification of THIS run (and covers threshold flips that a
+            # rounding-sized difference can cause): see `perturbation`
+            tol += Fraction(ENV_FACTOR * env[k])
         prev = here
         for j, (a, b) in enumerate(zip(iv, mv)):
             if abs(Fraction(float(a)) - b) > tol:
